@@ -19,7 +19,7 @@ import (
 )
 
 type config struct {
-	isn           uint32
+	isn            uint32
 	perConn, total int
 }
 
@@ -165,12 +165,12 @@ func main() {
 	if rp := os.Getenv("VERIF_REPLAY"); rp != "" {
 		var f struct {
 			Replay struct {
-				N                 int    `json:"n"`
-				Isn               uint32 `json:"isn"`
-				PerConn, Total    int
-				MaxPagesPerConn   int   `json:"max_pages_per_conn"`
-				MaxPagesTotal     int   `json:"max_pages_total"`
-				Seq               []int `json:"seq"`
+				N               int    `json:"n"`
+				Isn             uint32 `json:"isn"`
+				PerConn, Total  int
+				MaxPagesPerConn int   `json:"max_pages_per_conn"`
+				MaxPagesTotal   int   `json:"max_pages_total"`
+				Seq             []int `json:"seq"`
 			} `json:"replay"`
 		}
 		report.ReadJSON(rp, &f)
@@ -196,6 +196,10 @@ func main() {
 	var mu sync.Mutex
 	outcomes := map[string]struct{}{}
 	var samples []any
+	locals := make([]*report.Local, workers)
+	for i := range locals {
+		locals[i] = report.NewLocal()
+	}
 	deliveries := make([]int64, workers)
 	strict := make([]int64, workers)
 	for _, isn := range tm.ISNs(n) {
@@ -217,7 +221,10 @@ func main() {
 				}
 				if h.viol != "" {
 					key := fmt.Sprintf("c10|%s|isn=%s|limit=%v", h.viol, tm.ISNClass(cfg.isn, n), lim[0]+lim[1] > 0)
-					r.Violation(key, h.what+"; "+cfg.String()+fmt.Sprintf("; events %v", describe(cfg, alpha, seq, n)["events"]), int64(len(seq)), describe(cfg, alpha, seq, n))
+					locals[w].Add(key, int64(len(seq)), func() (string, any) {
+						d := describe(cfg, alpha, seq, n)
+						return h.what + "; " + cfg.String() + fmt.Sprintf("; events %v", d["events"]), d
+					})
 				}
 			})
 			total += cnt
@@ -233,6 +240,9 @@ func main() {
 			mu.Unlock()
 		}
 		samples = append(samples, describe(config{isn, 2, 0}, alpha, []int{0, 5, 2, 16, 9, 1}[:depth], n))
+	}
+	for _, l := range locals {
+		r.MergeLocal(l)
 	}
 	var dsum, ssum int64
 	for i := range deliveries {
